@@ -75,6 +75,8 @@ CERT = (" PLUS the certificate engine (second engine, DESIGN 8.2): the real Solv
         "enumerated bounded family (400 per family quick, 5000 thorough; families plain/full/wide/hints/hard/deep/lazycon/soft/softx/reuse/async/snapshot, see DESIGN 8.2) and z3 decides over ALL selections of the solvables: ")
 CERT_NOTE = " Certificate engine: universes are enumerated by a seeded generator (not symbolic); Spec(U) is written from the text of C01; read-only dump accessors are attached to the scratch copy under cfg(verif_cert); z3 (python3-vt) trusted, `unknown` => inconclusive."
 CHECKS["C01"]["text"] += " K7 (second scratch copy, built against the dependency shims of DESIGN 8.1): the Requires clause with a populated candidate cache - 1-3 candidates grouped into 1-3 version sets, single and union keys, an unrelated second entry - visit_literals yields exactly (not parent) or candidates in cached order, and next_unwatched_literal obeys the K3 contract for every assignment, watch pair and watch index."
+CHECKS["C20"]["text"] += " Additionally (observation of real runs, not a solver query): on the universes of the certificate engine's `cache` family the public SolverCache query methods are called on the dev and release builds and compared with the universe (partition, sorted order with the favored candidate first, stable repeated answers without provider calls, availability = hinted or fetched)."
+CHECKS["C04"]["text"] += " In 30% of the universes the provider starts asking for cancellation when the report of an Unsolvable result is built."
 CHECKS["C18"]["text"] += " Pool interning (built against the dependency shims of DESIGN 8.1, so FrozenCopyMap's HashMap is an association list): for Pool<VS(u8), N(u8)> with symbolic values - equal names / (package, version set) pairs share an id, different ones get different dense ids, re-interning and lookup return the same id, a never-interned name is not found, resolving returns what was interned, a reference taken before later interning stays valid, solvable and union ids are dense and unique even for equal records, union members keep their order. Hashing itself (a wrong Hash/Eq pair) and intern_string are not exercised."
 CHECKS["C18"]["note"] += " Pool harnesses: ahash/elsa/indexmap/futures/event-listener/bitvec/tracing replaced by /verif/shims in the scratch copy; whether two interned values are equal is enumerated per harness."
 CHECKS["C01"]["text"] += CERT + "the returned solution satisfies Spec(U), and the clause database emitted by the real Encoder implies Spec(U) restricted to everything that was fetched (no requirement, constrains entry, lock, exclusion or one-per-package fact is missing)."
@@ -142,7 +144,7 @@ def main():
         "engines": [
             {"name": "kani", "path": "/verif/lib/common.py", "serves_properties": sorted(k for k in CHECKS if CHECKS[k].get("engine", "kani") == "kani"),
              "kind_free_text": "cargo-kani 0.68 (CBMC 6.11 + CaDiCaL) on harnesses under /verif/kani attached to a scratch copy of /repo"},
-            {"name": "cert", "path": "/verif/lib/cert.py", "serves_properties": ["C01", "C02", "C03", "C04", "C05", "C07", "C08", "C10", "C13", "C14", "C15", "C16"],
+            {"name": "cert", "path": "/verif/lib/cert.py", "serves_properties": ["C01", "C02", "C03", "C04", "C05", "C07", "C08", "C10", "C13", "C14", "C15", "C16", "C20"],
              "kind_free_text": "certificate engine: native/cert runs the real Solver::solve of the scratch copy on enumerated universes and dumps clause database, learnt clauses, conflict graph; lib/cert.py asks z3 (python3-vt) the entailment/satisfiability questions over all selections"},
             {"name": "z3", "path": "/verif/lib/c15_z3.py", "serves_properties": ["C15"],
              "kind_free_text": "z3 (python3-vt) + cvc5 on the CNF emitted by the real binary_encoding.rs executed natively from the scratch copy"},
